@@ -59,7 +59,15 @@ def main():
           'class Ring extends Shape { public constructor() -> Ring = default; public override function name() -> string { return "Ring"; } }\n')
     disp = [(H3 + 'function main() -> void { Shape s = new Shape(); echo(s.name()); s = new Circle(); echo(s.name()); echo(s.describe()); s = new Ring(); echo(s.name()); echo(s.describe()); }\n', ['Shape', 'Circle', 'I am Circle', 'Ring', 'I am Ring'], 'eval.member_call.virtual_call_runs_override_of_dynamic_class'),
             (H3 + 'function main() -> void { Shape c = new Ring(); echo(c.describe()); Shape t = new Circle(); echo(t.describe()); echo(t.plain()); }\n', ['I am Ring', 'I am Circle', 'plainShape'], 'eval.member_call.virtual_call_runs_override_of_dynamic_class'),
-            (H3 + 'function main() -> void { Circle c = new Circle(); echo(c.viaSuper()); }\n', ['plainShape'], 'eval.member_call.super_call_runs_the_base_version')]
+            (H3 + 'function main() -> void { Circle c = new Circle(); echo(c.viaSuper()); }\n', ['plainShape'], 'eval.member_call.super_call_runs_the_base_version'),
+            # super.m() runs the base version ON THE SAME OBJECT: the base method reads this.x / calls this.name()
+            ('class A { public int x; public constructor() -> A { this.x = 3; return this; } public virtual function m() -> int { return this.x + 1; } }\n'
+             'class B extends A { public constructor() -> B { super(); return this; } public override function m() -> int { return super.m() + 10; } }\n'
+             'function main() -> void { B b = new B(); echo(b.m()); }\n', ['14'], 'eval.member_call.super_call_keeps_the_receiver'),
+            ('class A { public constructor() -> A = default; public virtual function name() -> string { return "A"; } public virtual function hello() -> string { return "hello from " + this.name(); } }\n'
+             'class B extends A { public constructor() -> B = default; public override function name() -> string { return "B"; } public override function hello() -> string { return super.hello() + "!"; } }\n'
+             'function main() -> void { A a = new B(); echo(a.hello()); }\n', ['hello from B!'], 'eval.member_call.super_call_keeps_the_receiver'),
+            ('class U { public constructor() -> U = default; public static function twice(int v) -> int { return v * 2; } }\nfunction main() -> void { echo(U.twice(4)); }\n', ['8'], 'eval.member_call.class_qualified_call_runs_that_classes_version')]
     for src, want, lab in disp:
         rc, out = run(bloch, src); n += 1
         got = [l.strip() for l in out.strip().split('\n') if l.strip()]
